@@ -12,7 +12,8 @@ TECHNIQUE = ("bounded-exhaustive enumeration of per-stream kernel sequences x la
              "x sort tie orders, real get_idle_time_breakdown vs gap-by-gap reference classification")
 RULE = ("stream 7: every sequence of <=K pairwise non-overlapping kernels (touching and zero length allowed) with "
         "endpoints in G_T; each kernel's launch call starts 1 before / at / 1 after the previous kernel's end, or "
-        "is missing (dangling correlation), or the kernel carries no correlation; a sync record on the stream must "
+        "is missing (dangling correlation), or the kernel carries no correlation; launch API name in {cudaLaunchKernel, "
+        "cudaLaunchCooperativeKernel, cudaMemcpy, cudaGraphLaunch}; a sync record on the stream must "
         "be ignored; stream 9 empty or a fixed 2-kernel pattern; event 0 (the leading host op) early or late; "
         "x thresholds {0,1,2,30} x stream subsets x ranks {[0],[0,1]} x file order {generated, reversed} x N1 "
         "tie orders. non-trivial = at least two distinct categories have positive idle time")
@@ -64,6 +65,12 @@ def worlds(tier: str, stats: Dict[str, Any]) -> Iterator[Any]:
                         for s9 in ((False, True) if k <= 2 else (False,)):
                             yield dict(T=T, kernels=[list(x) for x in ks], launch=[list(c) for c in choice],
                                        root=root, s9=s9)
+                    if k == 2 and any(c[0] == "L" for c in choice[1:]):
+                        # the launch call is whatever host call is linked to the kernel, not only the common launch APIs
+                        for lname in ("cudaLaunchCooperativeKernel", "cudaMemcpy", "cudaGraphLaunch"):
+                            stats["transitions"] += 1
+                            yield dict(T=T, kernels=[list(x) for x in ks], launch=[list(c) for c in choice], root=0, s9=False,
+                                       launch_name=lname)
 
 
 def build(w, rev=False) -> List[Dict[str, Any]]:
@@ -72,7 +79,7 @@ def build(w, rev=False) -> List[Dict[str, Any]]:
     corr = 30
     for (s, e), (kind, lt) in zip(w["kernels"], w["launch"]):
         if kind == "L":
-            body.append(kineto.runtime("cudaLaunchKernel", E0 + lt, 1, corr))
+            body.append(kineto.runtime(w.get("launch_name", "cudaLaunchKernel"), E0 + lt, 1, corr))
         k = kineto.kernel("kern_a", E0 + s, e - s, 7, corr)
         if kind == "N":
             del k["args"]["correlation"]
